@@ -225,6 +225,7 @@ pub fn run(r: &mut Report, ctx: &Ctx) {
     per_variant::<VNormalLC>(r, ctx);
     per_variant::<VLong>(r, ctx);
     per_variant::<VLongLC>(r, ctx);
+    crate::seq::section(r, ctx, "compare");
 }
 
 fn replay_laws<V: Variant>(a: &[u8], b: &[u8]) -> Result<(), String> {
